@@ -1304,11 +1304,15 @@ DIRECTED = {
             ],
     'C11': [({'spec': _spec(req=['a'], kwonly=[['k', True, 1]], kw=True), 'kind': 'func',
               'keymap': _km('keymap'), 'deco': 'inf', 'safe': False, 'ignore': ['**']},
-             'distinct11', ([1], {'k': 1}), ([1], {'k': 2}))],
+             'distinct11', ([1], {'k': 1}), ([1], {'k': 2})),
+            ({'spec': _spec(var=True), 'kind': 'func', 'keymap': _km('stringmap', sentinel=True),
+              'deco': 'inf', 'safe': False, 'ignore': []}, 'bare', ([1], {}), (['1'], {}))],
     'C12': [({'spec': _spec(req=['a']), 'kind': 'func', 'keymap': _km('stringmap'), 'deco': 'inf',
               'safe': False, 'tol': 1, 'deep': True}, 'round', ([{'__d__': [[1, 1.26]]}], {}), ([{'__d__': [[1, 1.24]]}], {})),
             ({'spec': _spec(req=['a']), 'kind': 'func', 'keymap': _km('stringmap'), 'deco': 'inf',
-              'safe': False, 'tol': 1, 'deep': True}, 'round', ([{'__r__': [0, 3, 1]}], {}), ([{'__r__': [0, 3, 1]}], {}))],
+              'safe': False, 'tol': 1, 'deep': True}, 'round', ([{'__r__': [0, 3, 1]}], {}), ([{'__r__': [0, 3, 1]}], {})),
+            ({'spec': _spec(var=True), 'kind': 'func', 'keymap': _km('stringmap', sentinel=True),
+              'deco': 'inf', 'safe': False, 'tol': 1, 'deep': False}, 'bare', ([1], {}), (['1'], {}))],
 }
 
 
@@ -1334,6 +1338,18 @@ def run_directed(prop):
                       'ignore=%r: calls %s and %s differ in non-ignored keyword-only k but share a key %s'
                       % (case['ignore'], srepr(c1), srepr(c2), srepr(ks1[0])[:100]),
                       mech=kwonly_dstar_mech(case['spec'], case['ignore'], ('kwonly', 'k')))
+        elif rel == 'bare':
+            # the recorded str(1) == str('1') collision of flat stringmap(encoding=None), seen from this property
+            ks1, _ = _keys(J, tgt, f, kg, *c1)
+            ks2, _ = _keys(J, tgt, f, kg, *c2)
+            if ks1 is not None and ks2 is not None and _same(ks1[0], ks2[0]):
+                if prop == 'C11':
+                    J.note('c11_discriminating_pairs')
+                    J.bad('C11', 'non-ignored-argument-merged', 'ignore=[]: calls %s and %s differ in a non-ignored argument '
+                          'but share a key %s' % (srepr(c1), srepr(c2), srepr(ks1[0])[:100]), mech=bare_scalar_mech(tgt, case, c1, c2))
+                else:
+                    J.bad('C12', 'rounds-differently-but-keys-equal', 'f.key tol=%r: %s and %s round differently but share key %s'
+                          % (case.get('tol'), srepr(c1), srepr(c2), srepr(ks1[0])[:100]), mech=bare_scalar_mech(tgt, case, c1, c2))
         elif rel == 'round':
             for c in (c1, c2):
                 try:
